@@ -108,6 +108,46 @@ fn world_on(allow_update: bool, axfr: &str, store: &str) -> World {
     World { handler, catalog, origin, memory: None }
 }
 
+/// the zone as `named` loads it: `SqliteZoneHandler::try_from_config` from a zone file, keys from key
+/// files; `restart`: the handler is dropped and loaded a second time, now from the journal of the first run
+async fn world_from_config(allow_update: bool, axfr: &str, restart: bool, dir: &std::path::Path, tag: &str) -> World {
+    use hickory_server::store::sqlite::{SqliteConfig, TsigKeyConfig};
+    let origin = Name::from_str("example.").unwrap();
+    let policy = match axfr {
+        "deny" => AxfrPolicy::Deny,
+        "all" => AxfrPolicy::AllowAll,
+        "signed" => AxfrPolicy::AllowSigned,
+        o => panic!("axfr policy {o}"),
+    };
+    std::fs::create_dir_all(dir).unwrap();
+    let zone_path = dir.join(format!("{tag}.zone"));
+    let journal_path = dir.join(format!("{tag}.jrnl"));
+    let _ = std::fs::remove_file(&journal_path);
+    std::fs::write(
+        &zone_path,
+        "@ 3600 IN SOA ns.example. admin.example. 1 3600 600 86400 300\n@ 3600 IN NS ns.example.\nns 3600 IN A 192.0.2.53\n",
+    )
+    .unwrap();
+    let mut keys = Vec::new();
+    for k in ["k1", "k2"] {
+        let kf = dir.join(format!("{tag}.{k}.key"));
+        std::fs::write(&kf, secret(k)).unwrap();
+        keys.push(TsigKeyConfig { name: key_name(k).to_string(), key_file: kf, algorithm: TsigAlgorithm::HmacSha256, fudge: FUDGE });
+    }
+    let cfg = SqliteConfig { zone_path, journal_path, allow_update, tsig_keys: keys };
+    let mut handler = None;
+    for _ in 0..(if restart { 2 } else { 1 }) {
+        drop(handler.take());
+        let h: SqliteZoneHandler<TokioRuntimeProvider> =
+            SqliteZoneHandler::try_from_config(origin.clone(), ZoneType::Primary, policy, false, None, &cfg, None).await.expect("try_from_config");
+        handler = Some(h);
+    }
+    let handler = Arc::new(handler.unwrap());
+    let mut catalog = Catalog::new();
+    catalog.upsert(LowerName::new(&origin), vec![handler.clone() as Arc<dyn ZoneHandler>]);
+    World { handler, catalog, origin, memory: None }
+}
+
 // ------------------------------------------------------------------------------------------
 // independent wire walker (no hickory code): offsets of the parts of a message
 
@@ -274,6 +314,17 @@ fn build(op: &str, r: &Value, origin: &Name, uniq: u32) -> Built {
         }
         (m, None)
     };
+    // header bits the sender set before signing (covered by the MAC like everything else)
+    match r["hdr"].as_str().unwrap_or("plain") {
+        "plain" => {}
+        "rd" => msg.metadata.recursion_desired = true,
+        "cd" => msg.metadata.checking_disabled = true,
+        "rdcd" => {
+            msg.metadata.recursion_desired = true;
+            msg.metadata.checking_disabled = true;
+        }
+        h => panic!("hdr {h}"),
+    }
     let mut verifier = None;
     if r["signed"].as_bool().unwrap() {
         let alg = if r["alg"] == "cfg" { TsigAlgorithm::HmacSha256 } else { TsigAlgorithm::HmacSha512 };
@@ -409,6 +460,19 @@ async fn send(w: &World, op: &str, bytes: Vec<u8>, marker: Option<&Name>) -> Out
     Outcome { effect, rcode, reply, note: String::new() }
 }
 
+/// does the reply end with a TSIG record that carries a MAC (independent walker)?
+fn mac_present(reply: &[u8]) -> bool {
+    let Some(l) = walk(reply) else { return false };
+    let Some((_, rd, _)) = l.recs.last().copied() else { return false };
+    if rd < 10 || u16::from_be_bytes([reply[rd - 10], reply[rd - 9]]) != 250 {
+        return false;
+    }
+    match tsig_fields(reply, rd) {
+        Some((_, _, macsize, _, _, _, _)) => u16::from_be_bytes([reply[macsize], reply[macsize + 1]]) > 0,
+        None => false,
+    }
+}
+
 /// reply obligations: carries a TSIG, the client verifier accepts it, no modified copy is accepted
 fn check_reply(reply: &[u8], verifier: &mut TSigVerifier, max_flips: usize) -> Value {
     let signed = Message::from_vec(reply).map(|m| m.signature.is_some()).unwrap_or(false);
@@ -472,6 +536,7 @@ fn main() {
 
     match mode {
         "replay" => rt.block_on(async {
+            let scratch = std::env::temp_dir().join(format!("verif-tsig-{}", std::process::id()));
             let mut worlds: std::collections::HashMap<String, World> = Default::default();
             let mut uniq = 0u32;
             for (ln, line) in io::stdin().lock().lines().enumerate() {
@@ -482,8 +547,18 @@ fn main() {
                 let c: Value = serde_json::from_str(&line).expect("case");
                 let (r, p) = (&c["r"], &c["p"]);
                 let store = p["store"].as_str().unwrap_or("sqlite");
-                let key = format!("{}-{}-{}", p["allowUpdate"], p["axfr"], store);
-                let w = worlds.entry(key).or_insert_with(|| world_on(p["allowUpdate"].as_bool().unwrap(), p["axfr"].as_str().unwrap(), store));
+                let start = p["start"].as_str().unwrap_or("direct");
+                let key = format!("{}-{}-{}-{}", p["allowUpdate"], p["axfr"], store, start);
+                if !worlds.contains_key(&key) {
+                    let (au, ax) = (p["allowUpdate"].as_bool().unwrap(), p["axfr"].as_str().unwrap());
+                    let w = if store == "sqlite" && start != "direct" {
+                        world_from_config(au, ax, start == "restart", &scratch, &key.replace('"', "")).await
+                    } else {
+                        world_on(au, ax, store)
+                    };
+                    worlds.insert(key.clone(), w);
+                }
+                let w = worlds.get_mut(&key).unwrap();
                 uniq += 1;
                 let op = r["op"].as_str().unwrap();
                 let mut b = build(op, r, &w.origin, uniq);
@@ -515,11 +590,22 @@ fn main() {
                         class = json!("modified-reply-accepted");
                     }
                 }
-                let ev = json!({"ev":"req","case":format!("g{ln}"),"r":r,"p":p,"effect":o.effect,"rcode":o.rcode,"reply": if reply_obs.is_null() { json!({}) } else { reply_obs.clone() }});
+                // RFC 8945 5.3.2: whether the reply carries a MAC at all is observed for every request
+                let mut reply_ev = if reply_obs.is_null() { json!({}) } else { reply_obs.clone() };
+                if let Some(rb) = o.reply.as_ref() {
+                    reply_ev["macPresent"] = json!(mac_present(rb));
+                    if mac_present(rb) && !c["verified"].as_bool().unwrap_or(true) && ok {
+                        ok = false;
+                        class = json!("reply-signed-for-unverified-request");
+                    }
+                }
+                let ev = json!({"ev":"req","case":format!("g{ln}"),"r":r,"p":p,"effect":o.effect,"rcode":o.rcode,"reply": reply_ev});
                 writeln!(trace, "{ev}").unwrap();
                 writeln!(out, "{}", json!({"case": ln, "ok": ok, "class": class, "effect": o.effect, "rcode": o.rcode, "honoured": honoured,
                     "mayEffect": may, "reply": reply_obs, "note": o.note, "input": {"r": r, "p": p}})).unwrap();
             }
+            drop(worlds);
+            let _ = std::fs::remove_dir_all(&scratch);
         }),
         "record" => rt.block_on(async {
             let mut rng = StdRng::seed_from_u64(seed);
@@ -534,7 +620,8 @@ fn main() {
                 let mut w = world(true, "signed");
                 let kn = if rng.random_bool(0.5) { "k1" } else { "k2" };
                 let dt: i64 = rng.random_range(-(FUDGE as i64 - 1)..=(FUDGE as i64 - 1));
-                let base = json!({"op": op, "signed": true, "keyName": kn, "macKey": kn, "alg": "cfg", "macLen": "full", "dt": dt, "tamper": "none"});
+                let base = json!({"op": op, "signed": true, "keyName": kn, "macKey": kn, "alg": "cfg", "macLen": "full", "dt": dt, "tamper": "none",
+                    "hdr": (["plain", "rd", "cd", "rdcd"][(case / 4) % 4])});
                 uniq += 1;
                 let genuine = build(op, &base, &w.origin, uniq);
                 let l = walk(&genuine.bytes).unwrap();
@@ -542,7 +629,8 @@ fn main() {
                 let emit = |trace: &mut dyn io::Write, kind: &str, at: usize, reg: String, o: &Outcome| {
                     let mut r = base.clone();
                     r["tamper"] = json!(reg);
-                    writeln!(trace, "{}", json!({"ev":"req","case":format!("s{seed}-{case}-{kind}{at}"),"r":r,"p":p,"effect":o.effect,"rcode":o.rcode,"reply":{},"mut":kind,"at":at})).unwrap();
+                    writeln!(trace, "{}", json!({"ev":"req","case":format!("s{seed}-{case}-{kind}{at}"),"r":r,"p":p,"effect":o.effect,"rcode":o.rcode,
+                        "reply": o.reply.as_ref().map(|b| json!({"macPresent": mac_present(b)})).unwrap_or(json!({})),"mut":kind,"at":at})).unwrap();
                 };
                 // every single-bit flip
                 for bit in 0..nbits {
